@@ -261,6 +261,12 @@ func genC11(r *rand.Rand, run int, _ string) *Scenario {
 		TTLNs: pick(r, int64(-1), -1, 0, 10*sec, 3600*sec), Jitter: pick(r, -1.0, 0),
 		DeleteExpiredAfterNs: dea, JanitorIntervalNs: iv, Strategy: r.IntN(3),
 	}
+	if chance(r, 0.1) {
+		// the documented defaults: entries are kept 24h after expiry, the job runs hourly
+		dea, iv = 24*3600*sec, 3600*sec
+		be.Cfg.LibDefaults, be.Cfg.DeleteExpiredAfterNs, be.Cfg.JanitorIntervalNs = true, 0, 0
+	}
+
 	be.Keys, be.Groups = genKeys(r, 6, 0)
 
 	n := 2 + r.IntN(14)
@@ -305,6 +311,12 @@ func (r *beRun) modeJanitor() {
 	out := e.out
 	m := newRefModel(r)
 	dea := dur(r.sc.Cfg.DeleteExpiredAfterNs)
+	if dea == 0 {
+		dea = 24 * time.Hour // documented default
+
+		out.probe("default_delete_expired_after")
+	}
+
 	explicitTTL := false
 	cycles := 0
 
